@@ -4,6 +4,7 @@
 #include <igris/osinter/wait.h>
 #include <igris/sync/syslock.h>
 #include <igris/util/macro.h>
+#include <igris/util/verif_point.h>
 
 int waiter_unwait(igris::dlist_node *lnk, intptr_t future)
 {
@@ -26,6 +27,7 @@ void unwait_one(igris::dlist_base *head, intptr_t future)
         return;
     }
 
+    IGRIS_VERIF_POINT_OBJ("unwait.unlink", head);
     it = head->first_node();
     it->unlink();
     waiter_unwait(it, future);
@@ -41,6 +43,7 @@ void unwait_all(igris::dlist_base *head, intptr_t future)
 
     while (!head->empty())
     {
+        IGRIS_VERIF_POINT_OBJ("unwait.unlink", head);
         it = head->first_node();
         it->unlink();
         waiter_unwait(it, future);
